@@ -78,6 +78,15 @@ CLAIMED = {
     "C25": ("exploration",
             "MsgRecoverClient for every ordered pair of three clients (Active/Expired/Frozen via clock jumps and misbehaviour; matching and differing parameters; higher and lower heights) through the REAL gov module. Succeeds only if subject not Active, substitute Active, strictly higher, same parameters; afterwards the subject is unfrozen at the substitute's latest height and consensus state; no other client namespace changes. The upgrade half of the property is NOT decided (no simulated chain upgrade).",
             "deterministic simulation: gov-driven recovery over client status histories, precondition model + post-state + confinement oracle", "8 C25"),
+    "C26": ("exploration",
+            "One real chain hosting 2-3 06-solomachine clients (single keys and n-of-n multisigs, a machine shared by two clients under different diversifiers) whose machines, keys and relayer the simulator plays: connection/channel handshakes and mock-application packet flow are proven by solo machine signatures; the faulty relayer replays earlier signatures after the sequence moved, signs for another sequence / timestamp / diversifier / path / data / key, corrupts signature bytes and submits double-signing evidence. Sequential reference model of each client (sequence, timestamp, key, diversifier, frozen): every committed verification consumed exactly one sequence and was signed by the registered key over exactly the bytes the chain had to check; no signature is accepted twice, no two signatures for one sequence; timestamps never decrease; refused messages change nothing; frozen clients accept nothing; valid double-signing evidence freezes (the repository's refusal of evidence built from signatures it accepts as proofs is the recorded finding).",
+            "deterministic simulation: simulator-played solo machines with replay / wrong-field / corrupted signature faults, sequential client reference model", "8 C26"),
+    "C28": ("fault_enumeration",
+            "One real chain hosting 2-3 attestations light clients with their own attestor sets (3-7 secp256k1 keys owned by the simulator), quorums and IBC v2 counterparties; the attested chain is a simulated height/clock. The relayer assembles client updates, membership / non-membership proofs and v2 receive / ack / timeout messages whose proofs are attestations — honest, or broken in one or two dimensions (signers below quorum, duplicated, unknown, wrong-domain tag, malleable/corrupted bytes, other payload, other height, other path hash or commitment, zero-commitment for absence). Independent reference verifier (signature recovery, distinct configured signers >= quorum, payload decoding, height/timestamp binding, path hash and value match): accepted => reference accepts; a frozen client accepts nothing; a conflicting timestamp for a stored height freezes the client. Coverage of the (message kind x broken dimension) grid is reported.",
+            "deterministic simulation: simulated attestor sets signing honest and broken attestations for every proof consumer, independent reference verifier", "8 C28"),
+    "C39": ("exploration",
+            "Two real chains joined by 2 or 11 IBC v2 client pairs; GMP calls reach the destination from user-signed MsgSendCall, from sends whose packet sender differs from / re-spells the signer, and from packets committed by a foreign application with arbitrary sender strings; (client, sender, salt) triples are drawn from families whose naive concatenations coincide; payloads hold 1-3 messages (sends from the derived account, from a victim, from another GMP account, multi-input sends, failing messages, nested calls); relays are duplicated and replayed. Oracles: one address per triple for the whole run and never shared by two triples (the recorded finding: senders differing only in UTF-8 continuation bytes share a store key); a payload executes only with the derived account as sole signer, completely or not at all (bank diff); no other account is debited; a send is accepted only for sender == signer.",
+            "deterministic simulation: colliding-triple families + foreign-sender packet injection under relay faults, address census + bank-diff oracle", "8 C39"),
     "C30": ("exploration",
             "2-3 real chains in a line or mesh of ICS-20 channels (v1, v2-over-alias, v2 clients) with the real rate-limit -> packet-forward -> transfer stack; users move natives (incl. '/'-segmented names) and vouchers over several hops and back under dropped/duplicated/replayed/reordered/raced relays, invalid and blocked receivers, tight timeouts, restarts. After EVERY block: real change of every bank balance and supply == sum of the ICS-20 reference model's predictions for the committed transactions; per channel end and escrowed denomination: escrow (net of donations) == voucher supply on the peer + in flight; native supplies constant.",
             "deterministic simulation: multi-chain token traffic under relay faults, ICS-20 reference model + cross-chain conservation equations on real bank state", "8 C30"),
